@@ -146,8 +146,18 @@ def append_only_rule(ctx, rep, prop):
                 okd = False
                 continue
             res = r.fields[1].val
-            dg = base_label(lab(res.fields[2].val)) if isinstance(res, AdtVal) and 2 in res.fields else None
-            idl = lab(res.fields[0].val) if isinstance(res, AdtVal) and 0 in res.fields else None
+            # the result is a ParseFileResult aggregate (struct update) or the entry's own value with `ast` re-assigned:
+            # a field that was never written still is the entry's field
+            names = [fl["name"] for fl in facts.adts["parser::ParseFileResult"]["variants"][0]["fields"]]
+
+            def fld(i):
+                if isinstance(res, AdtVal) and i in res.fields:
+                    return lab(res.fields[i].val)
+                if isinstance(res, AdtVal) and res.label is not None:
+                    return join_label(res.label, names[i])
+                return None
+            dg = base_label(fld(2)) if fld(2) is not None else None
+            idl = fld(0)
             okd = okd and lab(r.fields[0].val) == "ID" and idl == "fr.id" and dg is not None and "fr.diagnostics" in fmt_label(dg)
             sorts = [e for e in p.effects if e[0] == "call" and "sort" in e[1]]
             other = [e for e in p.effects if e[0] == "call" and e[1] not in ops and "sort" not in e[1] and "fr.diagnostics" in fmt_label(e[2])]
